@@ -178,6 +178,14 @@ theorem gen_lock_eq_ref : Csvq.Gen.fxTryCreateLockFile = Csvq.Ref.fxTryCreateLoc
 theorem gen_rlock_eq_ref : Csvq.Gen.fxTryCreateRLockFile = Csvq.Ref.fxTryCreateRLockFile := by decide
 theorem gen_temp_eq_ref : Csvq.Gen.fxTryCreateTempFile = Csvq.Ref.fxTryCreateTempFile := by decide
 theorem gen_cfclose_eq_ref : Csvq.Gen.fxControlFileClose = Csvq.Ref.fxControlFileClose := by decide
+/-- the committing writer publishes (renames the temporary file over the table) BEFORE it gives up the lock
+    file: the regenerated operation sequence of Handler.commit has the rename in front of both releases, so
+    the model's `wHold` really covers the publication and no second writer can read the old data in between -/
+theorem gen_commit_publishes_before_release :
+    Csvq.Gen.commitUpdateOps.idxOf "rename(h.tempFile.path,h.path)" < Csvq.Gen.commitUpdateOps.idxOf "cf_close(h.lockFile)" ∧
+    Csvq.Gen.commitUpdateOps.idxOf "rename(h.tempFile.path,h.path)" < Csvq.Gen.commitUpdateOps.idxOf "cf_close(h.rlockFile)" ∧
+    Csvq.Gen.commitUpdateOps.idxOf "cf_close(h.lockFile)" < Csvq.Gen.commitUpdateOps.length := by decide
+
 theorem gen_forread_eq_ref : Csvq.Gen.fxNewHandlerForRead = Csvq.Ref.fxNewHandlerForRead := by decide
 theorem gen_forupdate_eq_ref : Csvq.Gen.fxNewHandlerForUpdate = Csvq.Ref.fxNewHandlerForUpdate := by decide
 theorem gen_forcreate_eq_ref : Csvq.Gen.fxNewHandlerForCreate = Csvq.Ref.fxNewHandlerForCreate := by decide
